@@ -3,9 +3,10 @@ import WebPkg.Driver.OpsMice
 import WebPkg.Driver.OpsSH
 import WebPkg.Driver.OpsSxg
 import WebPkg.Driver.OpsBundle
+import WebPkg.Driver.OpsIB
 open WebPkg.Driver
 
-def handlers : List (String → List String → Option String) := [handleCbor, handleMice, handleSH, handleSxg, handleBundle]
+def handlers : List (String → List String → Option String) := [handleCbor, handleMice, handleSH, handleSxg, handleBundle, handleIB]
 
 def dispatch (op : String) (args : List String) : String :=
   match handlers.findSome? (fun h => h op args) with
